@@ -2,7 +2,11 @@
    The models are faithful to the unchanged tree (the structural correspondence of py/props/C05.py
    compares them with the implementation on these very witnesses), and on the witnesses below the
    model -- like the implementation -- returns an expression that differs from the requested
-   operation in shape, free indices or value, or fails on a well-formed request. *)
+   operation in shape, free indices or value, or fails on a well-formed request.
+   The models take the repair flags fx_is / fx_ct / fx_lt (Props/C05_model.v): the refutations are about
+   the unrepaired tree (flags false); the *_repaired examples show that with the flags set -- the
+   behaviour of the fix commits, which the check detects on the implementation -- the same witnesses
+   yield the raw request. *)
 Require Import UFLV.Core.Den.
 Require Import UFLV.Props.C05_model.
 
@@ -17,7 +21,7 @@ Definition lt_perm : list expr := [row 0 [(1, 2); (0, 2)]; row 1 [(1, 2); (0, 2)
 Definition lt_part : list expr := [row 0 [(0, 2)]; row 1 [(0, 2)]].
 
 Theorem C05_list_tensor_ct_refuted_shape :
-  exists es e, mk_list_tensor es = Some e /\ lt_ct_exact es = false /\
+  exists es e, mk_list_tensor false es = Some e /\ lt_ct_exact es = false /\
                shape e <> shape (ListTensor es) /\ fidx e <> fidx (ListTensor es).
 Proof. exists lt_part, T3. repeat split; try reflexivity; discriminate. Qed.
 
@@ -27,7 +31,7 @@ Add Field AfC05f : (kfield A).
 Ltac nrm H := cbv -[K k0 k1 kadd kmul ksub kopp kdiv kinv] in H.
 
 Theorem C05_list_tensor_ct_refuted_value :
-  exists es e, mk_list_tensor es = Some e /\ lt_ct_exact es = false /\
+  exists es e, mk_list_tensor false es = Some e /\ lt_ct_exact es = false /\
                shape e = shape (ListTensor es) /\ fidx e = fidx (ListTensor es) /\
     ~ (forall env D DX ki s rho c, @den A env D DX ki s rho e c = @den A env D DX ki s rho (ListTensor es) c).
 Proof.
@@ -42,12 +46,12 @@ Qed.
 Definition is1 : expr := IndexSum (ComponentTensor (Indexed M2 [Free 0; Free 1]) [(1, 2)]) 0 2.
 
 Theorem C05_indexed_index_sum_refuted :
-  exists a mi e, mk_indexed le_any ff_none 10 a mi = Some e /\
+  exists a mi e, mk_indexed le_any ff_none false false 10 a mi = Some e /\
                  fidx e <> fidx (Indexed a mi).
 Proof. exists is1, [Free 0], (IndexSum (Indexed M2 [Free 0; Free 0]) 0 2). split; [reflexivity|discriminate]. Qed.
 
 Theorem C05_indexed_index_sum_refuted_value :
-  exists a mi e, mk_indexed le_any ff_none 10 a mi = Some e /\
+  exists a mi e, mk_indexed le_any ff_none false false 10 a mi = Some e /\
     ~ (forall env D DX ki s rho, @den A env D DX ki s rho e [] = @den A env D DX ki s rho (Indexed a mi) []).
 Proof.
   exists is1, [Free 0], (IndexSum (Indexed M2 [Free 0; Free 0]) 0 2). split; [reflexivity|].
@@ -65,9 +69,19 @@ Definition lt4 : expr := ListTensor [Indexed V2 [Free 0]; Product (IntV 2) (Inde
 Definition ctk : expr := ComponentTensor (Indexed lt4 [Free 1]) [(0, 2)].
 
 Theorem C05_indexed_ct_keyerror_refuted :
-  exists a mi, mk_indexed le_any ff_none 10 a mi = None /\
+  exists a mi, mk_indexed le_any ff_none false false 10 a mi = None /\
                length mi = length (shape a) /\ shape (Indexed a mi) = [] /\ fidx (Indexed a mi) = [(1, 2)].
 Proof. exists ctk, [Fixed 0]. repeat split. Qed.
+
+Example C05_list_tensor_ct_repaired :
+  mk_list_tensor true lt_perm = Some (ListTensor lt_perm) /\ mk_list_tensor true lt_part = Some (ListTensor lt_part).
+Proof. split; reflexivity. Qed.
+Example C05_indexed_index_sum_repaired :
+  mk_indexed le_any ff_none true true 10 is1 [Free 0] = Some (Indexed is1 [Free 0]).
+Proof. reflexivity. Qed.
+Example C05_indexed_ct_keyerror_repaired :
+  mk_indexed le_any ff_none true true 10 ctk [Fixed 0] = Some (Indexed ctk [Fixed 0]).
+Proof. reflexivity. Qed.
 
 Print Assumptions C05_list_tensor_ct_refuted_shape.
 Print Assumptions C05_list_tensor_ct_refuted_value.
